@@ -26,15 +26,15 @@ const MinPackages = 14
 
 // Program is the loaded, type-checked and SSA-built repository.
 type Program struct {
-	Dir   string
-	Fset  *token.FileSet
-	Pkgs  []*packages.Package // repo packages only (roots)
-	All   map[string]*packages.Package
-	SSA   *ssa.Program
-	SPkgs map[string]*ssa.Package // by import path, repo + deps
-	Env   []string
-	Tags  string
-	cg    *callgraph.Graph
+	Dir    string
+	Fset   *token.FileSet
+	Pkgs   []*packages.Package // repo packages only (roots)
+	All    map[string]*packages.Package
+	SSA    *ssa.Program
+	SPkgs  map[string]*ssa.Package // by import path, repo + deps
+	Env    []string
+	Tags   string
+	cg     *callgraph.Graph
 	daemon map[*ssa.Function]bool
 }
 
